@@ -30,9 +30,9 @@ ASSUMPTIONS = ['rescale > 0 (a scaling factor); the ordering / precision clauses
                'under the known-finding key one-sided-level-below-half',
                'tolerance 1e-9 relative plus a conditioning term 2e-15 x (1 + (mean/sd of control)^2)']
 EXHAUSTIVE = {'quick': False, 'thorough': False}
-MINIMA = {'quick': {'fits': 600, 'days_checked': 4000, 'summary_rows_checked': 3000, 'variants_checked': 600,
+MINIMA = {'quick': {'refits': 100, 'fits': 600, 'days_checked': 4000, 'summary_rows_checked': 3000, 'variants_checked': 600,
                     'tbrfit_checked': 500, 'tbrfit_after_reuse': 200, 'distinct_nontrivial': 500},
-          'thorough': {'fits': 10000, 'days_checked': 60000, 'summary_rows_checked': 50000, 'variants_checked': 10000,
+          'thorough': {'refits': 1500, 'fits': 10000, 'days_checked': 60000, 'summary_rows_checked': 50000, 'variants_checked': 10000,
                        'tbrfit_checked': 8000, 'tbrfit_after_reuse': 3000, 'distinct_nontrivial': 8000}}
 N = {'quick': 720, 'thorough': 12000}
 
@@ -100,7 +100,7 @@ def run_case(spec):
   use_cool = r.random() < 0.6
   counters = collections.Counter()
   violations = []
-  desc = {k: exp[k] for k in ('n_pre', 'n_test', 'n_cool', 'n_ctl', 'n_trt', 'shape', 'extras', 'lift')}
+  desc = {k: exp[k] for k in ('n_pre', 'n_test', 'n_cool', 'n_ctl', 'n_trt', 'shape', 'extras', 'lift', 'int_dtype')}
   desc['use_cooldown'] = use_cool
 
   def add(clause, mech, detail):
@@ -112,6 +112,11 @@ def run_case(spec):
     fit_frame = frame
   before = frame.copy()
   model = tbr.TBR(use_cooldown=use_cool)
+  if r.random() < 0.3:
+    # re-use of one model object: fit and summarise a different experiment first
+    decoy = gen.gen_experiment(r, g, cost_mode='variable')
+    util.call(lambda: (model.fit(decoy['frame'], 'response'), model.summary(report='all'), model.causal_cumulative_distribution()))
+    counters['refits'] += 1
   fit = util.call(model.fit, fit_frame, 'response')
   if not fit.ok:
     add('fit', 'tbr-fit-raises:' + fit.exc_type, 'TBR.fit raised %s' % fit.describe())
